@@ -16,9 +16,13 @@
     needed — a cyclic workflow, or an edge out of a node that is no task, hangs the model silently.
   * H2 = `Sys.OneAdmission s0`: two different observations together exceed the telescope's arrays
     or the ingest-machine limit, so one block of the telescope's loop admits at most one (the second
-    visit sees the arrays / the ingest counter taken by the first).  A static condition; it excludes
-    K2.  Pairwise distinct planned starts do NOT: `C05_K2_distinct_est_witness`.  H2 is needed only
-    for "no block raises" (`C05_no_raise_queue_simpy`), not for "no silent hang".
+    visit sees the arrays / the ingest counter taken by the first).  A static condition; before the
+    repair F14 it was what excluded K2 (pairwise distinct planned starts did NOT).  F14: the repaired
+    admission test counts the machines already promised in the same pass, K2 is unreachable on the
+    simulator's runs (`C08_no_provisioning_failure_simpy`, TopsimProps/C08Promised.lean) and H2 is no
+    longer needed: `C05_no_raise_queue_simpy_noH2`, `C05_terminates_queue_simpy_noH2`.  The
+    theorems with H2 are kept verbatim (they follow).  `C05_K2_repaired_witness`: a configuration
+    violating H2 that raised before F14 and now runs to `is_finished()`.
   * `s0.halted = false`, `s0.buf.cold.transfer = none`: `WFConfig` says nothing of these two fields of
     the initial state; with `halted = true` the run does not start, with a cold transfer slot taken
     the admission test `ColdBuffer.has_capacity_for` can fail for ever.
@@ -32,11 +36,13 @@
       delay script) after some number of kernel steps the run has RAISED, or it is at
       `is_finished()` with nothing raised.  No silent hang: no deadlock, no starvation, no process
       polling for ever.
-  (3) `C05_no_raise_queue_simpy` — under H1 and H2 no block ever raises (every `raise` of
+  (3) `C05_no_raise_queue_simpy_noH2` — under H1 no block ever raises (every `raise` of
       Procs / Cluster / Buffer is excluded; the two that depend on SimPy's order inside an instant —
       provisioning finds its machines, an allocation process finds its machine available — by the
-      order fact `C05_urgent_first_simpy`), and `C05_terminates_queue_simpy` — THE TARGET:
+      order fact `C05_urgent_first_simpy` and, F14, the accounting invariant `sim_fit`), and
+      `C05_terminates_queue_simpy_noH2` — THE TARGET:
       ∃ n, after n kernel steps `isFinished = true ∧ crashed = none`.
+      `C05_no_raise_queue_simpy`, `C05_terminates_queue_simpy`: the statements before F14, with H2.
       `C05_terminates_queue_simpy_of_noRaise`: the same with the run-level hypothesis "no block
       raises" in place of H2.
   (4) stage lemmas (`…_partial`): every supervisor / provisioning / stream / allocation process /
@@ -144,6 +150,23 @@ theorem C05_urgent_first_simpy (env : SimEnv) (s0 : Sys) (hw : Sys.WFConfig s0) 
     (1 ≤ p.pc → ∀ q ∈ (simAt env s0 n).st.procs, q.alive = true → 1 ≤ q.pc) :=
   nc_urgent_first hw n hpk hpp ha
 
+/-- F14 — H2 (`OneAdmission`) dropped, the repaired admission test makes it unnecessary.  **No block raises**: queue algorithm, batch planning, well-formed feasible configuration,
+initially empty full-free buffer, H1 (no tiering); any
+environment. -/
+theorem C05_no_raise_queue_simpy_noH2 (env : SimEnv) (s0 : Sys) (hw : Sys.WFConfig s0)
+    (hfe : Sys.Feasible s0)
+    (hb0 : s0.buf.hot.stored = [] ∧ s0.buf.hot.scheduled = [] ∧ s0.buf.hot.finished = [] ∧
+      s0.buf.cold.stored = [])
+    (hfull : s0.buf.size = [] ∧ s0.buf.hot.cur = s0.buf.hot.total ∧ s0.buf.cold.cur = s0.buf.cold.total)
+    (hct : s0.buf.cold.transfer = none) (hh0 : s0.halted = false)
+    (hH1 : Sys.NoTierCfg s0) (halg : s0.alg = .queue)
+    (hstat : s0.staticPlan = false) (htopo : ∀ o ∈ s0.obs, IsTopo o.wf) (n : Nat) :
+    (ilSimSteps env n (SimState.start s0)).st.crashed = none := by
+  have := live_noRaise (env := env) ⟨hw, hfe, hb0, hfull, hct, hH1, halg, hstat, htopo, hh0⟩ n
+  rw [simAt_eq_ilSimSteps] at this
+  exact this
+
+-- F14: H2 is no longer needed (`…_noH2` above); statement kept verbatim
 /-- **No block raises**: queue algorithm, batch planning, well-formed feasible configuration,
 initially empty full-free buffer, H1 (no tiering), H2 (one admission per telescope block); any
 environment. -/
@@ -156,10 +179,28 @@ theorem C05_no_raise_queue_simpy (env : SimEnv) (s0 : Sys) (hw : Sys.WFConfig s0
     (hH1 : Sys.NoTierCfg s0) (hH2 : Sys.OneAdmission s0) (halg : s0.alg = .queue)
     (hstat : s0.staticPlan = false) (htopo : ∀ o ∈ s0.obs, IsTopo o.wf) (n : Nat) :
     (ilSimSteps env n (SimState.start s0)).st.crashed = none := by
-  have := live_noRaise (env := env) ⟨hw, hfe, hb0, hfull, hct, hH1, hH2, halg, hstat, htopo, hh0⟩ n
-  rw [simAt_eq_ilSimSteps] at this
-  exact this
+  have _ := hH2
+  exact C05_no_raise_queue_simpy_noH2 env s0 hw hfe hb0 hfull hct hh0 hH1 halg hstat htopo n
 
+/-- F14 — H2 (`OneAdmission`) dropped, the repaired admission test makes it unnecessary.  **`C05_terminates_queue_simpy`** — THE TARGET.  For `s0.alg = .queue`, `WFConfig`, `Feasible`,
+initial buffers empty / full-free (`hb0`, `hfull`), H1 (`NoTierCfg`), H3 (in
+`Feasible`), H4 (`IsTopo`), batch planning, any `env`: there is `n` such that the state after `n`
+kernel steps has `isFinished = true ∧ crashed = none` (and the run up to there is one uninterrupted
+`env.run`). -/
+theorem C05_terminates_queue_simpy_noH2 (env : SimEnv) (s0 : Sys) (hw : Sys.WFConfig s0)
+    (hfe : Sys.Feasible s0)
+    (hb0 : s0.buf.hot.stored = [] ∧ s0.buf.hot.scheduled = [] ∧ s0.buf.hot.finished = [] ∧
+      s0.buf.cold.stored = [])
+    (hfull : s0.buf.size = [] ∧ s0.buf.hot.cur = s0.buf.hot.total ∧ s0.buf.cold.cur = s0.buf.cold.total)
+    (hct : s0.buf.cold.transfer = none) (hh0 : s0.halted = false)
+    (hH1 : Sys.NoTierCfg s0) (halg : s0.alg = .queue)
+    (hstat : s0.staticPlan = false) (htopo : ∀ o ∈ s0.obs, IsTopo o.wf) :
+    ∃ n, (ilSimSteps env n (SimState.start s0)).st.isFinished = true ∧
+      (ilSimSteps env n (SimState.start s0)).st.crashed = none ∧
+      SimRun env s0 (ilSimSteps env n (SimState.start s0)) :=
+  live_terminates_cfg ⟨hw, hfe, hb0, hfull, hct, hH1, halg, hstat, htopo, hh0⟩
+
+-- F14: H2 is no longer needed (`…_noH2` above); statement kept verbatim
 /-- **`C05_terminates_queue_simpy`** — THE TARGET.  For `s0.alg = .queue`, `WFConfig`, `Feasible`,
 initial buffers empty / full-free (`hb0`, `hfull`), H1 (`NoTierCfg`), H2 (`OneAdmission`), H3 (in
 `Feasible`), H4 (`IsTopo`), batch planning, any `env`: there is `n` such that the state after `n`
@@ -175,8 +216,9 @@ theorem C05_terminates_queue_simpy (env : SimEnv) (s0 : Sys) (hw : Sys.WFConfig 
     (hstat : s0.staticPlan = false) (htopo : ∀ o ∈ s0.obs, IsTopo o.wf) :
     ∃ n, (ilSimSteps env n (SimState.start s0)).st.isFinished = true ∧
       (ilSimSteps env n (SimState.start s0)).st.crashed = none ∧
-      SimRun env s0 (ilSimSteps env n (SimState.start s0)) :=
-  live_terminates_cfg ⟨hw, hfe, hb0, hfull, hct, hH1, hH2, halg, hstat, htopo, hh0⟩
+      SimRun env s0 (ilSimSteps env n (SimState.start s0)) := by
+  have _ := hH2
+  exact C05_terminates_queue_simpy_noH2 env s0 hw hfe hb0 hfull hct hh0 hH1 halg hstat htopo
 
 /-! ### (4) the stages (trajectory level; `LiveCfg` = the hypotheses of (3)) -/
 
@@ -251,20 +293,25 @@ theorem C05_allocTasks_progress_partial {env : SimEnv} {s0 : Sys} (C : LiveCfg e
       ¬ Sys.PSch o node (simAt env s0 n).st ∧ Sys.PSch o node (simAt env s0 (n + 1)).st :=
   live_allocTasks_progress C (liveKernel C hh0) n hpk hpp ha hk hrm hav hocc hq
 
-/-! ### K2 with pairwise distinct planned starts -/
+/-! ### K2 with pairwise distinct planned starts, repaired (F14) -/
 
-/-- Known finding K2 is reachable with pairwise DISTINCT planned starts (0, 1, 2): configuration
-`k2W` (one machine, two arrays, ingest limit 2; A: start 0, 3 steps, both arrays; B: start 1; C:
-start 2; one array, one step, one ingest machine each; no workflows; buffers 1000 / 1000).  B and C
-wait for A's arrays and are both admitted by the telescope's block at t = 4, both checked against
-the same single available machine; the second provisioning raises RuntimeError.  `k2W` is well
-formed, feasible, satisfies H1 and H4 — and not H2. -/
-theorem C05_K2_distinct_est_witness :
+/-- F14 (replaces `C05_K2_distinct_est_witness`, which stated that this run raised RuntimeError with
+B and C both admitted at t = 4).  Configuration `k2W` (one machine, two arrays, ingest limit 2; A:
+start 0, 3 steps, both arrays; B: start 1; C: start 2; one array, one step, one ingest machine each;
+no workflows; buffers 1000 / 1000; pairwise DISTINCT planned starts 0, 1, 2) is well formed,
+feasible, satisfies H1 and H4 — and not H2.  B and C wait for A's arrays and are both visited by
+the telescope's block at t = 4.  With the repaired admission test only B is admitted there (the
+single available machine is promised to B, so C is refused — state `k2K5`, just before t = 5,
+nothing raised); C is admitted at t = 6, and the run reaches `is_finished()` with nothing raised. -/
+theorem C05_K2_repaired_witness :
     Sys.WFConfig k2W ∧ Sys.Feasible k2W ∧ Sys.NoTierCfg k2W ∧ (∀ o ∈ k2W.obs, IsTopo o.wf) ∧
-    k2W.obs.map (·.est) = [0, 1, 2] ∧ ¬ Sys.OneAdmission k2W ∧ SimRun {} k2W k2K ∧
-    k2K.st.crashed = some Err.runtime ∧
-    k2K.st.obs.map (fun o => (o.id, o.ast)) = [(0, some 0), (1, some 4), (2, some 4)] :=
-  ⟨k2W_wf, k2W_feasible, k2W_h1, k2W_topo, k2W_est, k2W_not_oneAdmission, k2K_run, k2K_spec.1, k2K_spec.2.1⟩
+    k2W.obs.map (·.est) = [0, 1, 2] ∧ ¬ Sys.OneAdmission k2W ∧
+    SimRun {} k2W k2K5 ∧ k2K5.st.crashed = none ∧
+    k2K5.st.obs.map (fun o => (o.id, o.ast)) = [(0, some 0), (1, some 4), (2, none)] ∧
+    SimRun {} k2W k2K ∧ k2K.st.isFinished = true ∧ k2K.st.crashed = none ∧
+    k2K.st.obs.map (fun o => (o.id, o.ast)) = [(0, some 0), (1, some 4), (2, some 6)] :=
+  ⟨k2W_wf, k2W_feasible, k2W_h1, k2W_topo, k2W_est, k2W_not_oneAdmission, k2K5_run, k2K5_spec.1,
+    k2K5_spec.2.1, k2K_run, k2K_spec.2.2, k2K_spec.1, k2K_spec.2.1⟩
 
 /-! ### the hypotheses are satisfiable -/
 
